@@ -779,6 +779,15 @@ def shrink_monitor(ctx, envs, rec, cases, n_ref):
                     mech = MECH_SYMP_STALL
             fam = "rk" if base.method == "fixed" else "symplectic"
             ctx.stat(f"E(dt/2)/E(dt) [{fam}]", e2 / e1)
+            if fam == "symplectic":
+                # C14's text asks for the energy level "within integration accuracy" (the calibrated absolute bound of clause 2, which IS
+                # asserted for symplectic maps). Shrinking with dt is a convergence statement: with the library's omega heuristic
+                # (omega = (c*dt)^-order) the error term dt^order*omega is constant by construction, and the scheme's order is C16's
+                # subject (known finding there). Recorded, not asserted.
+                ctx.count("2:symplectic E(dt/2)/E(dt) recorded, not asserted (convergence of the symplectic scheme is C16's subject)")
+                if not good:
+                    ctx.count("2:symplectic energy error did not shrink when dt was halved (omega heuristic)")
+                continue
             ctx.check(good, f"2:energy error shrinks when dt is halved [{fam}]",
                       {"config": asdict(base), "dt": [d1, d2], "max_energy_error": [e1, e2], "ratio": e2 / e1,
                        "omega_dt_at_finer_step": (base.c_omega * d2) ** (-float(base.order)) * d2 if base.method == "symplectic" else None}, mech)
